@@ -405,15 +405,26 @@ class WithOptions(Evaluatable[B]):
         """Validate the wrapped Evaluatable object with the provided options."""
         self.evaluatable.validate(self._options(options))
 
+    def _provides(self, key: str, options: Options) -> bool:
+        """Whether the value the wrapped object sees under key comes from this wrapper alone."""
+        if not dotted_key_exists(key, self.options):
+            return False
+        if not self.force:
+            return not dotted_key_exists(key, options)
+        # A pre-set section is merged key by key with the caller's section under the
+        # same key, so what the wrapped object sees there still depends on the caller.
+        return not (
+            isinstance(get_dotted_key(key, self.options), Mapping)
+            and dotted_key_exists(key, options)
+            and isinstance(get_dotted_key(key, options), Mapping)
+        )
+
     def keys(self, options: Options) -> Set[str]:
         """Return the keys required by the wrapped Evaluatable object."""
         return {
             key
             for key in self.evaluatable.keys(self._options(options))
-            if not (
-                dotted_key_exists(key, self.options)
-                and (self.force or not dotted_key_exists(key, options))
-            )
+            if not self._provides(key, options)
         }
 
     def explain(self, options: Optional[Options] = None) -> Set[str]:
@@ -422,10 +433,7 @@ class WithOptions(Evaluatable[B]):
         return {
             key
             for key in self.evaluatable.explain(self._options(options))
-            if not (
-                dotted_key_exists(key, self.options)
-                and (self.force or not dotted_key_exists(key, options))
-            )
+            if not self._provides(key, options)
         }
 
     def __repr__(self) -> str:
